@@ -232,7 +232,7 @@ class C11IndexND(Harness):
 
     def instances(self, tier):
         specs2 = ["i", "s", "i,i", "i,s", "s,i", "s,s", ":,i", "i,:", "i,i,i", ":,s"]
-        specs3 = ["i,i,i", "i,s,:", "s,:,i", ":,i,i", "i", "s,s,s", "i,i"] if tier != "quick" else ["i,i,i", "i,s,:", ":,i,i", "i,i"]
+        specs3 = ["i,i,i", "i,s,:", "s,:,i", ":,i,i", "i", "s,s,:", "i,i"] if tier != "quick" else ["i,i,i", "i,s,:", ":,i,i", "i,i"]
         for sp in specs2:
             yield f"nd-S2x3-{sp.replace(',', '_').replace(':', 'c')}", dict(shape=[2, 3], spec=sp)
         for sp in specs3:
